@@ -641,9 +641,9 @@ func runFrame(fr *frame) {
 		if !isTargetPanic(p) {
 			panic(engineBug{fmt.Sprintf("%v\n  target stack: %s", p, targetStack(fr))})
 		}
-		if fr.i.ctx.panicObj != p {
+		if !fr.i.ctx.panicLive {
 			// deepest frame sees the panic first: remember where it came from
-			fr.i.ctx.panicObj, fr.i.ctx.panicStack = p, targetStack(fr)+" @ "+fr.i.prog.Fset.Position(curPos(fr)).String()
+			fr.i.ctx.panicLive, fr.i.ctx.panicStack = true, targetStack(fr)+" @ "+fr.i.prog.Fset.Position(curPos(fr)).String()
 		}
 		fr.panicking = true
 		fr.panic = p
@@ -726,6 +726,7 @@ func doRecover(caller *frame) value {
 		caller != nil && !caller.panicking &&
 		caller.caller != nil && caller.caller.panicking {
 		caller.caller.panicking = false
+		caller.i.ctx.panicLive = false
 		p := caller.caller.panic
 		caller.caller.panic = nil
 
